@@ -66,6 +66,8 @@ static const scen_t scenarios[] = {
    "sync leader, non-sync follower, sync follower + read"},
   {"D14", "B1", 4, "P0.1 F P0.1 F P0.1 F P0.1 F", "", {"P0.2 P1.2 P0.2 P1.2 P0.1 P1.1", "R0"}, 0,
    "a writer fills and switches the memtable (5th put) while a manual level-0 compaction is in its unlocked tail"},
+  {"D15", "B1", 4, "P0.1 F P1.1 F P0.1 F", "", {"C", "P0.2 F", "y"}, 0,
+   "ldb_compact (level scan + manual compactions) while another thread flushes and installs new versions, plus property reads"},
   {"D5", "B1", 4, "P0.1 F P0.1 F", "", {"P0.2 P1.2", "y x y", "x n01"}, 0,
    "writer + property/approximate-sizes + snapshot churn"},
   {"D6", "B1,reuse=1", 4, "P0.2 P1.2 P0.2", "", {"P0.2 P0.2", "P1.2", "P0.1", "g0"}, 0,
